@@ -15,7 +15,7 @@ Layers:
 import itertools, os, shutil, subprocess, tempfile, json
 import common as C
 
-EXTRACT = ["C15"]
+EXTRACT = ["C15", "C14"]
 BINS = ["c15"]
 NEEDS_CICADA = True
 ALLOWED_AXIOMS = []
@@ -450,6 +450,46 @@ def run(ctx, res):
                             stderr=err[-300:], failing_input=True,
                             note="set -e / function call / source: the script does not end at the first failing command with "
                                  "its status (or runs a different command sequence)")
+        # ---------------- L2c: set -e in effect over random block-structured scripts (C15_sete):
+        # the ASTs of C14's generator, `set -e` as first line; reference = extracted sem_block with e = true,
+        # and the transcribed interpreter (run_lines with exit_on_error on) on the model's own parse
+        import c14 as K
+        seqh = os.path.join(ctx.helpers, "seq")
+        asts = K.gen_asts(ctx, hp, seqh, 600 if ctx.thorough else 100)
+        m_ast = C.run_model(ctx.model["C14"], C.write_cases("c15_e_ast.txt", [C.case("ast", a) for a in asts]))
+        etexts = [C.dec(l[len("wf=1 text=\""):].split("\" tree=", 1)[0]) for l in m_ast]
+        m_seme = C.run_model(ctx.model["C14"], C.write_cases("c15_e_sem.txt", [C.case("seme", a, "60") for a in asts]))
+        m_rune = C.run_model(ctx.model["C14"], C.write_cases("c15_e_run.txt", [C.case("rune", t, "60") for t in etexts]))
+
+        def one_e(ix):
+            d = os.path.join(work, "e%d" % ix)
+            os.makedirs(d)
+            r_ = K.run_script(ctx.cicada, "set -e\n" + etexts[ix], d)
+            shutil.rmtree(d, ignore_errors=True)
+            return r_
+        with ThreadPoolExecutor(max_workers=C.NCPU) as ex:
+            eouts = list(ex.map(one_e, range(len(asts))))
+        res.count("L2c_sete_nested_runs", len(asts))
+        nviol = 0
+        for ix, (rc, log, out, err) in enumerate(eouts):
+            exp = K.expected_of(m_seme[ix])
+            if exp is None:
+                raise C.Infra("sem_block (e = true) gave no outcome: %s" % m_seme[ix])
+            if m_rune[ix] != m_seme[ix]:
+                nviol += 1
+                if nviol <= 3:
+                    res.violate(kind="model-self-check", layer="L2c", ast=asts[ix], sem=m_seme[ix], run=m_rune[ix], failing_input=False,
+                                note="transcribed interpreter with exit_on_error on differs from sem_block with e = true")
+            elog, erc = exp
+            res.nontrivial("l2c:" + ";".join(x.split("/")[-1] for x in elog)[:200])
+            if (log, rc) != (elog, erc):
+                nviol += 1
+                if nviol <= 3:
+                    res.violate(kind="oracle", layer="L2c", entry="script", ast=asts[ix], input="set -e\n" + etexts[ix],
+                                expected="trace=%r status=%r" % (elog, erc), observed="trace=%r status=%r" % (log, rc),
+                                stderr=err[-300:], failing_input=True,
+                                note="with set -e the script does not end at the first failing command (at any nesting depth) "
+                                     "with its status")
         c, rc, log, err = outs[0]
         res.sample({"layer": "L2", "tag": c["tag"], "script": c["files"][c["main"]], "args": c["args"],
                     "reference": repr(c["expect"]), "impl": "trace=%r status=%r" % (log, rc)})
